@@ -574,6 +574,20 @@ class ExprMixin(object):
         raise Undecided("cannot store python-side value %r" % (sv,))
 
     # ------------------------------------------------------------------
+    def e_Yield(self, node, st, acc):
+        """Generator functions are modelled as returning the list of the values they yield, in order (the consumer
+        sees exactly that sequence; laziness -- interleaving with the consumer -- is not modelled)."""
+        ys = st.env.get("$yields")
+        if ys is None or self.cur_fid != self.cur_fid_top:
+            raise Undecided("yield outside the function under verification")
+        if node.value is None:
+            v = self.mk_none()
+        else:
+            st, v = self.eval(node.value, st, acc)
+        v = self.box(st, v)
+        self.seq_append(st, ys, v)
+        return st, self.mk_none()
+
     def e_Tuple(self, node, st, acc):
         items = []
         for e in node.elts:
